@@ -51,12 +51,12 @@ def check(tier):
         diff.differential(rep, cases, dbs[:2], ccfg, name + "-c", batch_size=100, deadline=dl, timeout=300)
     rep.set("rule", "every program of the slice x thread counts 1..16 (interpreter) and 1,2,4,8 (compiled) on databases with 40-120 tuples; outputs "
             "compared with the reference model (so with the single-threaded result)")
-    rep.assume("the schedule dimension inside one thread count is not enumerated here: the OS schedule is whatever it is; exhaustive interleaving "
-               "exploration is done on the relation data structures themselves (C25-C31)")
+    rep.assume("thread-count sweeps on the real binaries run under whatever OS schedule occurs; schedules are enumerated for generated code under the OpenMP shim and "
+               "for the relation data structures themselves (C25-C31)")
     # schedule dimension: generated code under the vsched scheduler with the OpenMP shim (all chunk assignments and access
     # interleavings up to the preemption bound on small driver programs)
     from .. import gomp_cases
-    gomp_cases.run_gomp(rep, tier, dl, "C03")
+    gomp_cases.run_gomp(rep, tier, Deadline(300 if tier == "quick" else 1500), "C03")
     return rep.finish()
 
 
